@@ -131,6 +131,17 @@ func universes(thorough bool) []*universe {
 		},
 		[]slotT{{"ns1", "s1"}, {"ns1", "s2"}, {"ns1", "s3"}}, shareVs, shareSlotVs))
 
+	// a running cluster in which s1 and s2 already share the only address (non-initial state: the histories that
+	// start by breaking up a sharing pair are within the depth bound); s3 is the newcomer
+	rs := mkUniverse("restart-sharing-pair", ns12[:1],
+		[][]metallbv1beta1.IPAddressPool{
+			{mkPool("a", []string{"10.0.0.0/32"}, nil)},
+			{mkPool("a", []string{"10.0.0.0/31"}, nil)},
+		},
+		[]slotT{{"ns1", "s1"}, {"ns1", "s2"}, {"ns1", "s3"}}, shareVs, map[int][]int{0: {1, 3}, 1: {2, 4, 0}, 2: {0, 2, 7}})
+	rs.Preload = []preSvc{{0, 1, []string{"10.0.0.0"}, "a"}, {1, 2, []string{"10.0.0.0"}, "a"}}
+	us = append(us, rs)
+
 	// ---- U-policy: pool selection policy ----
 	f := false
 	polLayouts := [][]metallbv1beta1.IPAddressPool{
